@@ -553,7 +553,14 @@ class C18:
                 why = 'line %d is not a statement of the format: %r' % (bad + 1, ls[bad][:200])
             else:
                 why = 'every line is a statement, but they do not form the DOT file of an automaton (header, nodes 0..n-1 then edges per scope, clusters numbered from 0, node kinds)'
-            v['violations'].append('file %s: the extractor rejects the file: %s' % (fn, why))
+            generic = dot_parse(v['files'][fn])
+            if 'error' in generic:
+                v['violations'].append('file %s is not a well-formed Graphviz file (generic DOT grammar: %s); the extractor rejects it too: %s'
+                                       % (fn, generic['error'], why))
+            else:
+                # well-formed Graphviz, but not in the text layout Dot.v models: the content cannot be compared
+                v['broken'].append('file %s is well-formed Graphviz by the generic DOT grammar, but the extractor of the layout model (Dot.v) '
+                                   'rejects it (%s): the layout model no longer matches the renderer' % (fn, why))
         elif real != exp:
             v['violations'].append('file %s: graph read back differs from the compiled automaton of mode %s: %s' % (
                 fn, m['name'], '; '.join(describe_diff(real, exp))))
